@@ -98,6 +98,7 @@ type histOpts struct {
 	idTTL  time.Duration
 	expIn  int
 	noRT   bool
+	rotate bool // the provider issues a new refresh token with every refresh
 	faults map[int]string
 	// methods is what the provider's discovery document advertises as code_challenge_methods_supported
 	methods []string
@@ -114,6 +115,7 @@ func genHistOpts(c *sim.Case) histOpts {
 	ho.idTTL, _ = time.ParseDuration(sim.PickStr(c, "idttl", "60s", "600s", "3600s"))
 	ho.expIn = []int{0, 30, 300, 7200}[sim.Pick(c, "expires_in", 4)]
 	ho.noRT = sim.Weighted(c, "no-refresh-token", 3, 1) == 1
+	ho.rotate = sim.Bool(c, "rotate-refresh-tokens")
 	if sim.Weighted(c, "abs-timeout", 2, 1) == 1 {
 		ho.o.Abs = []time.Duration{30 * time.Minute, 2 * time.Hour, 24 * time.Hour}[sim.Pick(c, "abs", 3)]
 	}
@@ -133,7 +135,7 @@ func (ho histOpts) build(c *sim.Case, mons ...monitor) *H {
 	w := sim.NewWorld(c, ho.o)
 	w.IdP.IDTTL = ho.idTTL
 	w.IdP.ChallengeMethods = ho.methods
-	w.IdP.Default = &sim.Behaviour{Name: "default", ExpiresIn: ho.expIn, NoExpiresIn: ho.expIn == 0, NoRefresh: ho.noRT}
+	w.IdP.Default = &sim.Behaviour{Name: "default", ExpiresIn: ho.expIn, NoExpiresIn: ho.expIn == 0, NoRefresh: ho.noRT, Rotate: ho.rotate}
 	for k, v := range ho.faults {
 		w.Faults[k] = v
 	}
